@@ -340,9 +340,6 @@ class PlainQuantity(Generic[MagnitudeT], PrettyIPython, SharedRegistryObject):
 
         return not bool(tmp.dimensionality)
 
-    #: Memo of (units, dimensionality of those units).
-    _dimensionality: tuple[UnitsContainerT, UnitsContainerT] | None = None
-
     @property
     def dimensionality(self) -> UnitsContainerT:
         """
@@ -351,14 +348,10 @@ class PlainQuantity(Generic[MagnitudeT], PrettyIPython, SharedRegistryObject):
         dict
             Dimensionality of the PlainQuantity, e.g. ``{length: 1, time: -1}``
         """
-        # The units of a quantity change in place (ito with a context, in-place
-        # arithmetic): the memo only holds for the units it was computed from.
-        memo = self._dimensionality
-        if memo is None or memo[0] is not self._units:
-            memo = (self._units, self._REGISTRY._get_dimensionality(self._units))
-            self._dimensionality = memo
-
-        return memo[1]
+        # Not memoised per object: the units of a quantity can change in place (ito
+        # with a context, in-place arithmetic) and so can the definitions behind a
+        # name; the registry memoises per units container and knows when to forget.
+        return self._REGISTRY._get_dimensionality(self._units)
 
     def check(self, dimension: UnitLike) -> bool:
         """Return true if the quantity's dimension matches passed dimension."""
